@@ -19,6 +19,7 @@ from prosemirror.transform.doc_attr_step import DocAttrStep
 
 from .. import core, gen, ops, schemas
 from ..core import outcome
+from . import c04_guard
 
 SINGLE_UNDO = (ReplaceStep, ReplaceAroundStep, AttrStep, DocAttrStep, AddNodeMarkStep, RemoveNodeMarkStep)
 
@@ -32,7 +33,7 @@ def declared(step, doc):
     return True
 
 
-def undo_single(ctx, info, doc, step, res_doc, reqs, metas, origin):
+def undo_single(ctx, info, doc, step, res_doc, reqs, metas, origin, expect_known=False):
     replay = {"schema": info.name, "doc": doc.to_json(), "step": step.to_json(), "origin": origin}
     ctx.case(["undo", info.name, doc.to_json(), step.to_json()],
              sample={"op": "invert+apply", "schema": info.name, "step": step.to_json(), "origin": origin})
@@ -43,12 +44,15 @@ def undo_single(ctx, info, doc, step, res_doc, reqs, metas, origin):
         return
     stb, back = outcome(lambda: inv.apply(res_doc))
     ok = stb == "ok" and back.doc is not None and back.doc.eq(doc)
+    detail = None
     if not ok:
         detail = back.failed if stb == "ok" else str(back)
         r = dict(replay, inverse=inv.to_json(), outcome=stb, detail=str(detail)[:200], after=res_doc.to_json(),
                  undone=back.doc.to_json() if stb == "ok" and back.doc is not None else None,
                  displaced_marks=displaced(step, doc), node_mark=node_mark_info(step, doc))
-        ctx.violation("undo-" + type(step).__name__, "applying the inverted step does not restore the original document", r)
+        # aimed cases of c04_guard (a private non-transitive schema): the failure is the subject of the guard tie there
+        if not expect_known:
+            ctx.violation("undo-" + type(step).__name__, "applying the inverted step does not restore the original document", r)
     # inverse map
     m, mi = step.get_map(), inv.get_map()
     size_new = res_doc.content.size
@@ -61,6 +65,8 @@ def undo_single(ctx, info, doc, step, res_doc, reqs, metas, origin):
     # model: its inverse, applied by the real code, must restore the document as well
     reqs.append({"op": "invert", "s": info.lean_id, "doc": info.node(doc), "step": info.step(step)})
     metas.append(("invert", replay, (info, doc, res_doc, ok)))
+    # the guard of theorem replace_undo (model predicate tied to the real code's notions; see c04_guard.py)
+    c04_guard.request(ctx, info, doc, step, res_doc, ok, detail, reqs, metas, replay)
 
 
 def node_mark_info(step, doc):
@@ -94,8 +100,15 @@ def run(ctx):
 
     def flush():
         outs = ctx.driver.run(reqs) if reqs else []
-        for req, (op, replay, (info, doc, res_doc, impl_ok)), out in zip(reqs, metas, outs):
+        for req, (op, replay, payload), out in zip(reqs, metas, outs):
             ctx.count("model_requests")
+            if op == "sidesCompatible":
+                c04_guard.compare(ctx, replay, payload, out)
+                continue
+            if op == "aroundGuards":
+                c04_guard.compare_around(ctx, replay, payload, out)
+                continue
+            info, doc, res_doc, impl_ok = payload
             if "ok" not in out:
                 if impl_ok:
                     ctx.mismatch("invert", replay, "impl inverse restores", out)
@@ -253,6 +266,7 @@ def run(ctx):
             if schema.marks:
                 for _ in range(2):
                     history(info, d, docs, ops.MARK_OPS, rng.randint(1, 3))
+    c04_guard.aimed(ctx, rng, gen, undo_single, reqs, metas)
     flush()
     return ctx.finish(
         rule="a case is a single applied replace/replace-around/attr/doc-attr/node-mark step (every schema) or a history of "
